@@ -1,6 +1,8 @@
 """C08 — The async API returns exactly what the sync API returns."""
 from __future__ import annotations
 
+import copy
+
 import asyncio
 
 from .. import core, qeval, qpool
@@ -154,8 +156,61 @@ def evaluate(ctx, cases):
                 batch = []
         if batch:
             _gather(ctx, loop, batch)
+        _one_query_many_documents(ctx, loop)
     finally:
         loop.close()
+
+
+SHARED_QUERIES = ["$.items[?@.v < $.limit]", "$.items[?@.v < $.limit].v", "$.items[?@.v == _.v || @.v > $.limit]", "$.items[?$.flag && @.v]", "$..[?@.v >= $.limit]",
+                  "$.items[?count($.items[*]) > @.v]", "$.items[?@.v in $.allowed]", "$.items[?@.v < $.limit] | $.items[?@.v > $.limit]"]
+
+
+def _one_query_many_documents(ctx, loop):
+    """ONE compiled query, several documents (and filter contexts) evaluated by tasks in flight together - the item
+    getters really suspend - and by asynchronous iterators advanced alternately: each evaluation sees its own document."""
+    import jsonpath
+    docs = [{"limit": lim, "flag": lim % 2 == 0, "allowed": [lim, 1], "items": [{"v": 1}, {"v": 3}, {"v": 5}, {"v": lim}]} for lim in (2, 4, 6, 0)]
+    extras = [{"v": 1}, {"v": 3}, {"v": 5}, {}]
+    for text in SHARED_QUERIES:
+        q = jsonpath.compile(text)
+        want = [[core.canon(v) for v in q.findall(copy.deepcopy(d), filter_context=e)] for d, e in zip(docs, extras)]
+
+        async def one(d, e):
+            return [core.canon(m.obj) async for m in await q.finditer_async(wrap(copy.deepcopy(d)), filter_context=e)]
+
+        async def allv(d, e):
+            return [core.canon(v) for v in await q.findall_async(wrap(copy.deepcopy(d)), filter_context=e)]
+
+        async def main():
+            return await asyncio.gather(*[one(d, e) for d, e in zip(docs, extras)], *[allv(d, e) for d, e in zip(docs, extras)])
+        r = core.outcome(lambda: loop.run_until_complete(main()))
+        ctx.count("one-query-many-documents")
+        inp = {"text": text, "docs": docs, "filter_contexts": extras}
+        if "err" in r:
+            ctx.violation("concurrent asynchronous evaluations of one compiled query raised", inp, r["err"], want)
+            continue
+        got = r["ok"]
+        if got[:4] != want or got[4:] != want:
+            ctx.violation("asynchronous evaluations of one compiled query in flight together must each return what the synchronous call returns for their own document",
+                          inp, got, want)
+            continue
+
+        # two asynchronous iterators over different documents advanced alternately (plain containers)
+        async def alternate():
+            ia = (await q.finditer_async(copy.deepcopy(docs[0]), filter_context=extras[0])).__aiter__()
+            ib = (await q.finditer_async(copy.deepcopy(docs[1]), filter_context=extras[1])).__aiter__()
+            ga, gb = [], []
+            live = [(ia, ga), (ib, gb)]
+            while live:
+                for it, acc in list(live):
+                    try:
+                        acc.append(core.canon((await it.__anext__()).obj))
+                    except StopAsyncIteration:
+                        live.remove((it, acc))
+            return [ga, gb]
+        r2 = core.outcome(lambda: loop.run_until_complete(alternate()))
+        if r2.get("ok") != want[:2]:
+            ctx.violation("two asynchronous iterators of one compiled query advanced alternately must each yield their own result", inp, r2.get("ok", r2.get("err")), want[:2])
 
 
 async def _collect(aw):
